@@ -103,6 +103,8 @@ type FuncVC struct {
 	assigned    map[string][]*Loc
 	skolems     map[string][][]Term
 	funCache    map[string]string
+	stable      []*Loc
+	assignsOpaque bool
 
 	// statistics for the evidence file
 	nInstr      int
